@@ -161,6 +161,7 @@ type Line struct {
 	PanicMsg string             `json:"panicMsg,omitempty"`
 	Post    *State              `json:"post,omitempty"`
 	Gauges  map[string]Gauges   `json:"gauges,omitempty"`
+	MemShift int                `json:"memShift"` // the memory unit is 1 MiB << MemShift (0, or 20 in `drive -huge`)
 	Twin    *TwinObs            `json:"twin,omitempty"`
 }
 
